@@ -113,3 +113,23 @@ Qed.
 (* the heap of Proof/C18.v with one more, empty, array: EMPTY = [] *)
 Definition st1 : state := set_arrays (arrays st0 ++ [[]]) st0.
 Definition EMPTY : value := VList (Slice 2 0 0 0).
+
+(* ---- isinstance (fixed in /repo 5960191: the wrappers are removed before the type tests; gotrans reads off the
+        source whether they are - Gen/C18Pins.v isinstance_unwraps) ----
+   for EVERY value, type list and call shape the answer for a frozen value is the answer for the ordinary one *)
+Theorem isinstance_indifferent : forall v tys single,
+  isinstance_model isinstance_unwraps v tys single = isinstance_model isinstance_unwraps (unfreeze v) tys single.
+Proof. intros v tys single. destruct v; reflexivity. Qed.
+
+(* and it is what one expects on lists and dicts, frozen or not *)
+Theorem isinstance_list_dict : forall sl i,
+  isinstance_model isinstance_unwraps (VFrozenList sl) [s "list"] true = true
+  /\ isinstance_model isinstance_unwraps (VFrozenDict i) [s "dict"] true = true
+  /\ isinstance_model isinstance_unwraps (VFrozenList sl) [s "dict"] true = false
+  /\ isinstance_model isinstance_unwraps (VFrozenDict i) [s "list"; s "str"] false = false.
+Proof. intros. repeat split. Qed.
+
+(* without the unwrapping (the code before the fix) a frozen list was not a list *)
+Lemma isinstance_without_unwrap_differs : forall sl,
+  isinstance_model false (VFrozenList sl) [s "list"] true = false /\ isinstance_model false (VList sl) [s "list"] true = true.
+Proof. intros. split; reflexivity. Qed.
